@@ -1,7 +1,9 @@
 package main
 
 // further fact tables, each in its own file, registered from init():
-//   func init() { extraTables = append(extraTables, extractXxx) }
+//
+//	func init() { extraTables = append(extraTables, extractXxx) }
+//
 // called by main() after the catalogue has been written, with the repository root and the
 // output directory (empty: print to stdout).
 var extraTables []func(repo, out string)
